@@ -25,7 +25,10 @@ which keeps the meaning exactly:
   * a call of a private helper (`_name`, same module, not recursive, no closures) that is a whole statement - `self._h(a)`,
     `x = self._h(a)`, `return self._h(a)` - is replaced by the helper's body: arguments that are not plain references are bound
     to fresh locals first, in the order they were written; the helper's own locals are renamed where they would collide;
-  * the same for a local function that is only ever called (its free variables are read at the call, where the body now stands).
+  * the same for a local function that is only ever called (its free variables are read at the call, where the body now stands);
+  * a helper whose returns sit in if / else arms is rewritten so that every return ends its arm, and then read in place;
+  * a helper call in the middle of an expression or an `if` test that is evaluated first and always (everything before it pure)
+    is bound to a fresh local just ahead of the statement.
 
 Nothing is guessed: a step whose side conditions (no rebinding, no capture, arguments without effects) cannot be shown is not
 taken, and the function is then returned as it stands - the rules see the unrecognised shape and say so."""
@@ -326,6 +329,11 @@ class Simplifier:
             if isinstance(s, SCOPES):
                 out.append(s)
                 continue
+            hoisted = self.hoist(s, local)
+            if hoisted is not None:
+                self.changed = True
+                out.extend(self.block(hoisted, local))
+                continue
             if isinstance(s, ast.If):
                 s.test = self.fold_expr(s.test, local)
                 s.body = self.block(s.body, local) or [ast.copy_location(ast.Pass(), s)]
@@ -374,6 +382,9 @@ class Simplifier:
                 and self.cls is not None:
             h = self.p.lookup_method(self.cls.qn, fn.attr)
             bound = True
+            # dynamic dispatch: the receiver may be an instance of a subclass that has its own method of this name
+            if h is not None and any(fn.attr in self.p.classes[q].methods for q in self.p.subclasses(self.cls.qn) if q in self.p.classes):
+                h = None
         elif isinstance(fn, ast.Name) and fn.id not in local:
             sy = self.mod.syms.get(fn.id)
             if sy is not None and sy.kind == 'func':
@@ -430,6 +441,130 @@ class Simplifier:
                 return i < j
         return False
 
+    def _pure(self, e, local):
+        """evaluating it does nothing and cannot be affected by a call made in between: a constant, a name, an attribute chain of
+        names, a stable reference, a display / arithmetic / comparison of such"""
+        if isinstance(e, (ast.Constant, ast.Name)) or self.stable_ref(e, local):
+            return True
+        if isinstance(e, ast.Attribute):
+            return self._pure(e.value, local)
+        if isinstance(e, (ast.Tuple, ast.List)):
+            return all(self._pure(x, local) for x in e.elts)
+        if isinstance(e, ast.UnaryOp) and isinstance(e.op, ast.Not):
+            return self._pure(e.operand, local)
+        if isinstance(e, ast.Compare) and all(isinstance(o, (ast.Is, ast.IsNot)) for o in e.ops):
+            return self._pure(e.left, local) and all(self._pure(c, local) for c in e.comparators)
+        return False
+
+    def _first_helper_call(self, e, local):
+        """the first call of a new helper the expression evaluates, if everything evaluated before it is pure and it is evaluated
+        unconditionally -> (parent node, field, index or None, call)"""
+        found = []
+
+        def order(n):
+            # children in evaluation order, with a flag: is the child evaluated whenever n is?
+            if isinstance(n, ast.Call):
+                return [(n, 'func', None, True)] + [(n, 'args', i, True) for i in range(len(n.args))] + \
+                       [(k, 'value', None, True) for k in n.keywords]
+            if isinstance(n, ast.Attribute):
+                return [(n, 'value', None, True)]
+            if isinstance(n, ast.Subscript):
+                return [(n, 'value', None, True), (n, 'slice', None, True)]
+            if isinstance(n, ast.BinOp):
+                return [(n, 'left', None, True), (n, 'right', None, True)]
+            if isinstance(n, ast.UnaryOp):
+                return [(n, 'operand', None, True)]
+            if isinstance(n, ast.Compare):
+                return [(n, 'left', None, True), (n, 'comparators', 0, True)] + [(n, 'comparators', i, False) for i in range(1, len(n.comparators))]
+            if isinstance(n, ast.BoolOp):
+                return [(n, 'values', 0, True)] + [(n, 'values', i, False) for i in range(1, len(n.values))]
+            if isinstance(n, ast.IfExp):
+                return [(n, 'test', None, True), (n, 'body', None, False), (n, 'orelse', None, False)]
+            if isinstance(n, (ast.Tuple, ast.List, ast.Set)):
+                return [(n, 'elts', i, True) for i in range(len(n.elts))]
+            if isinstance(n, ast.Dict):
+                out = []
+                for i in range(len(n.keys)):
+                    if n.keys[i] is None:
+                        return None
+                    out += [(n, 'keys', i, True), (n, 'values', i, True)]
+                return out
+            if isinstance(n, ast.JoinedStr):
+                return [(n, 'values', i, True) for i in range(len(n.values))]
+            if isinstance(n, ast.FormattedValue):
+                return [(n, 'value', None, True)]
+            if isinstance(n, (ast.Constant, ast.Name)):
+                return []
+            return None            # anything else (comprehension, lambda, starred, await, walrus ...): not entered
+
+        def get(parent, fld, idx):
+            v = getattr(parent, fld)
+            return v[idx] if idx is not None else v
+
+        def walk(n):
+            """-> 'found' | 'pure' | 'stop'"""
+            ch = order(n)
+            if ch is None:
+                return 'stop'
+            for parent, fld, idx, always in ch:
+                c = get(parent, fld, idx)
+                if isinstance(c, ast.keyword):
+                    continue
+                if not always:
+                    # evaluated only sometimes: nothing in it may be hoisted, and nothing after it either unless it is pure
+                    if not self._pure(c, local):
+                        return 'stop'
+                    continue
+                if isinstance(c, ast.Call) and self._helper(c, local) is not None and \
+                        all(self._pure(a, local) for a in c.args) and all(self._pure(k.value, local) for k in c.keywords):
+                    found.append((parent, fld, idx, c))
+                    return 'found'
+                r = walk(c)
+                if r != 'pure':
+                    return r
+            if isinstance(n, ast.Call):
+                return 'stop'        # a call that is not a helper: it may do anything; what follows it must stay where it is
+            if isinstance(n, (ast.Subscript, ast.BinOp, ast.Compare)) and not self._pure(n, local):
+                return 'stop'        # may run user code (__getitem__, __add__, __eq__): order matters after it
+            return 'pure'
+        r = walk(e) if not (isinstance(e, ast.Call) and self._helper(e, local) is not None) else 'stop'
+        return found[0] if found else None
+
+    def hoist(self, s, local):
+        """a helper call in the middle of `x = ...`, `return ...`, `<expr>` or the test of an `if`, evaluated first and always:
+        bound to a fresh local just before the statement (where inline_site then reads the helper in place)"""
+        if isinstance(s, (ast.Assign, ast.Return, ast.Expr)):
+            root, fld = s, 'value'
+        elif isinstance(s, ast.If):
+            root, fld = s, 'test'
+        else:
+            return None
+        e = getattr(root, fld)
+        if e is None or self.inlined >= 12:
+            return None
+        if isinstance(e, ast.Call) and self._helper(e, local) is not None and not isinstance(s, ast.If):
+            return None                      # the whole value: inline_site's business
+        if isinstance(e, ast.Call) and self._helper(e, local) is not None and isinstance(s, ast.If):
+            parent, f2, idx, call = root, fld, None, e
+        else:
+            hit = self._first_helper_call(e, local)
+            if hit is None:
+                return None
+            parent, f2, idx, call = hit
+        self.hoisted = getattr(self, 'hoisted', 0) + 1
+        tmp = 'value__h%d' % self.hoisted
+        while tmp in local or any(isinstance(n, ast.Name) and n.id == tmp for n in ast.walk(self.f)):
+            self.hoisted += 1
+            tmp = 'value__h%d' % self.hoisted
+        name = ast.copy_location(ast.Name(tmp, ast.Load()), call)
+        if idx is None:
+            setattr(parent, f2, name)
+        else:
+            getattr(parent, f2)[idx] = name
+        a = ast.copy_location(ast.Assign([ast.Name(tmp, ast.Store())], call), s)
+        ast.fix_missing_locations(a)
+        return [a, s]
+
     def inline_site(self, s, local):
         """`self._h(args)` / `x = self._h(args)` / `return self._h(args)` as a whole statement -> the helper's body in place"""
         if isinstance(s, ast.Expr) and isinstance(s.value, ast.Call):
@@ -448,9 +583,14 @@ class Simplifier:
         body = _strip_doc(hnode.body)
         rets = [n for n in _own(hnode) if isinstance(n, ast.Return)]
         tail = body[-1] if body and isinstance(body[-1], ast.Return) else None
+        tree = None
         if how != 'return' and any(x is not tail for x in rets):
-            return None                   # a return in the middle: only `return helper(...)` can take the body as it is
-        if how == 'assign' and (tail is None or tail.value is None):
+            # returns in the middle: when they sit in if / else arms only (not in loops, try or with), the body is rewritten so
+            # that each return becomes the end of its arm - `if c: return a` + rest  ->  `if c: <a> else: rest`
+            tree = _returns_to_arms(body)
+            if tree is None:
+                return None
+        if how == 'assign' and tree is None and (tail is None or tail.value is None):
             return None
         hstores = stores(hnode)
         hlocals = set(hstores) - set(h.params)
@@ -475,9 +615,25 @@ class Simplifier:
                 pre.append(ast.copy_location(ast.Assign([ast.Name(tmp, ast.Store())], copy.deepcopy(arg)), s))
                 pre[-1]._temp = True
         if ren:
-            for n in ast.walk(hnode):
-                if isinstance(n, ast.Name) and n.id in ren:
-                    n.id = ren[n.id]
+            seen_ids = set()
+            for root in [hnode] + list(tree or []):
+                for n in ast.walk(root):
+                    if isinstance(n, ast.Name) and n.id in ren and id(n) not in seen_ids:
+                        seen_ids.add(id(n))
+                        n.id = ren[n.id]
+        if tree is not None:
+            res = '%s__%d' % ('result', k)
+            body = _arms_to_assign([Subst(sub).visit(b) for b in tree], res if how == 'assign' else None)
+            out = pre + body
+            if how == 'assign':
+                out.append(ast.copy_location(ast.Assign(s.targets, ast.Name(res, ast.Load())), s))
+                out[-1]._temp_use = True
+            for st in out:
+                ast.fix_missing_locations(st)
+                for n in ast.walk(st):
+                    n._via_helper = h.qn
+            self.via.append(h.qn)
+            return out
         body = [Subst(sub).visit(b) for b in body]
         out = pre
         if how == 'return':
@@ -528,9 +684,8 @@ class Simplifier:
         counts = stores(self.f)
         local = set(counts) | set(_params(self.f.args))
         for st in ast.walk(self.f):
-            if isinstance(st, (ast.Expr, ast.Assign, ast.Return)) and isinstance(st.value, ast.Call):
-                if self._helper(st.value, local) is not None:
-                    return True
+            if isinstance(st, ast.Call) and self._helper(st, local) is not None:
+                return True
         return False
 
     def _table(self, it, local, stmts_before):
@@ -740,6 +895,65 @@ def normalise(p):
     return done
 
 
+def _has_return(st):
+    stack = [st]
+    while stack:
+        n = stack.pop()
+        if isinstance(n, ast.Return):
+            return True
+        if isinstance(n, SCOPES):
+            continue
+        stack.extend(ast.iter_child_nodes(n))
+    return False
+
+
+def _returns_to_arms(stmts, depth=0):
+    """statement list in which every return ends an arm of an if / else tree (the statements after an `if` that returns are
+    moved into its other arm; where both arms fall through they are repeated in each).  None when a return sits in a loop, a
+    try or a with, or when the repetition would get out of hand."""
+    if depth > 6:
+        return None
+    for i, st in enumerate(stmts):
+        if not _has_return(st):
+            continue
+        if isinstance(st, ast.Return):
+            return stmts[:i + 1]
+        if not isinstance(st, ast.If):
+            return None
+        rest = stmts[i + 1:]
+        if len(rest) > 12 and _has_return(ast.Module(st.body, [])) and _has_return(ast.Module(st.orelse, [])) and depth > 2:
+            return None
+        a = _returns_to_arms(st.body + copy.deepcopy(rest), depth + 1)
+        b = _returns_to_arms(st.orelse + rest, depth + 1)
+        if a is None or b is None:
+            return None
+        new = ast.copy_location(ast.If(st.test, a or [ast.Pass()], b), st)
+        return stmts[:i] + [new]
+    return stmts
+
+
+def _arms_to_assign(stmts, target):
+    """the returns of an if / else tree (see _returns_to_arms) become `target = value` (or the bare value, evaluated for its
+    effects, when there is no target); an arm that falls off the end yields None"""
+    out = []
+    for st in stmts:
+        if isinstance(st, ast.Return):
+            if target is not None:
+                out.append(ast.copy_location(ast.Assign([ast.Name(target, ast.Store())], st.value or ast.Constant(None)), st))
+            elif st.value is not None and not isinstance(st.value, (ast.Name, ast.Constant)):
+                out.append(ast.copy_location(ast.Expr(st.value), st))
+            return out or [ast.copy_location(ast.Pass(), st)]
+        if isinstance(st, ast.If) and _has_return(st):
+            st.body = _arms_to_assign(st.body, target)
+            st.orelse = _arms_to_assign(st.orelse, target) if (st.orelse or target is not None) else st.orelse
+            out.append(st)
+            return out
+        out.append(st)
+    if target is not None:
+        out.append(ast.Assign([ast.Name(target, ast.Store())], ast.Constant(None)))
+    return out
+
+
 def _strip_doc(body):
     if body and isinstance(body[0], ast.Expr) and isinstance(body[0].value, ast.Constant) and isinstance(body[0].value.value, str):
         return body[1:]
@@ -760,6 +974,8 @@ def _delegation(p, f, root):
     if isinstance(fn, ast.Attribute) and isinstance(fn.value, ast.Name) and fn.value.id == 'self' and f.cls is not None:
         h = p.lookup_method(root or f.cls.qn, fn.attr)
         bound = True
+        if h is not None and any(fn.attr in p.classes[q].methods for q in p.subclasses(root or f.cls.qn) if q in p.classes):
+            h = None                      # overridden below: which body runs depends on the receiver
     elif isinstance(fn, ast.Name) and fn.id not in stores(f.node) and fn.id not in _params(f.node.args):
         s = f.mod.syms.get(fn.id)
         if s is not None and s.kind == 'func':
